@@ -41,7 +41,8 @@ func payload(id, size int) []byte {
 }
 
 type concChain struct {
-	up, px *httptest.Server
+	up *httptest.Server
+	px *frontSrv
 	table  route.Table
 	mu     sync.Mutex
 	got    map[int][32]byte // request body hash seen by the upstream per id
@@ -84,7 +85,7 @@ func newConcChain(flush time.Duration) *concChain {
 	}
 	c.table = tbl
 	cache := route.NewGlobCache(100)
-	c.px = httptest.NewServer(&proxy.HTTPProxy{
+	c.px = viaListener(&proxy.HTTPProxy{
 		Stats:     wire.Stats(),
 		Config:    config.Proxy{FlushInterval: flush},
 		Transport: &http.Transport{DisableCompression: true, MaxIdleConnsPerHost: 64},
